@@ -53,9 +53,11 @@ CHECKS = {
         "option sets, PARSE x neutral-terminus subsets), complete chain-"
         "layout alphabet (14 layouts x 20 residue types at the chain ends), "
         "strands of length 1-3 for every nucleotide and cyclic closures on a "
-        "distance lattice around 1.35 A; oracle = chemistry table of formal "
+        "distance lattice around 1.35 A (also next to a linear chain sorting "
+        "before/after the ring), multi-instance structures (every residue "
+        "type several times in one chain); oracle = chemistry table of formal "
         "charges evaluated on the PQR charge column, terminus markers per "
-        "built chain end.",
+        "built chain end, every built residue present in the model.",
         "Formal-charge table and state inference are the harness's; aborting "
         "runs are counted, not judged (C12).",
         "stateless bounded-exhaustive exploration of the pipeline against a "
@@ -66,7 +68,9 @@ CHECKS = {
         "model_checking",
         "Corpus S3 (host tripeptide x position x option set x environment "
         "with <=2 deviations: clash probes, omitted/extra atoms, water "
-        "lattice, partner poses) + strands through the real pipeline with "
+        "lattice, partner poses, backbone gaps, rebuilt-atom clashes, "
+        "hydrogen / backbone omissions, asymmetric acids, neutral termini), "
+        "chain layouts, real 3-residue windows + strands through the real pipeline with "
         "monitors on every Optimize method; the observed automaton of "
         "temporary-atom bookkeeping is reported as states/transitions; "
         "invariants: input heavy atoms conserved unless a deletion warning "
@@ -85,7 +89,9 @@ CHECKS = {
         "caps (and of everything under --clean/--assign-only/--nodebump "
         "--noopt), unchanged bond lengths/angles among input heavy atoms, "
         "and every torsion call audited against the independently parsed "
-        "bond graph (moved set = atoms beyond the bond, pure rotation).",
+        "bond graph (moved set = atoms beyond the bond, pure rotation); "
+        "environments include several clash probes per residue (further "
+        "torsions), rebuilt-atom clashes under --nodebump, real windows.",
         "Lattice geometry; bond graph = union of residue template and "
         "patches parsed by the harness.",
         "stateless bounded-exhaustive exploration with call-level monitors",
@@ -112,8 +118,11 @@ CHECKS = {
         "apply_pka_values directly; a reference decision model built from the "
         "independent force-field resolver decides what must happen (state "
         "change, or default state plus warning); nothing may be dropped; "
+        "the residue must carry the formal charge of the state it ended in; "
         "total charge is non-increasing along pH chains (heptapeptide with "
-        "all seven groups; thorough: real PROPKA on bundled proteins).",
+        "all seven groups); pairs of same-type residues whose pKa values "
+        "straddle the pH; acids with --noopt / asymmetric carboxylates; "
+        "thorough: real PROPKA on bundled proteins.",
         "Support = resolver has every atom of the target state's topology "
         "with integral charge; protonation read from written atom names.",
         "exhaustive decision-table exploration of the implementation against "
@@ -165,8 +174,9 @@ CHECKS = {
     "C11": (
         "model_checking",
         "Search over run histories in one process: every sequence of <=2 "
-        "(thorough <=3) runs from an 8-run alphabet (successes and failures, "
-        "titration, ligand, --clean, user force field) executed in a fresh "
+        "(thorough <=3) runs from a 12-run alphabet (successes and failures, "
+        "titration, ligand, --clean, two user force fields, heavy-atom "
+        "repair, tolerated parse error, multi-model file) executed in a fresh "
         "child process; each run's PQR bytes must equal those of the run "
         "alone in a fresh process; every run repeated under several hash "
         "seeds; a structural fingerprint of pdb2pqr's module-level state "
@@ -179,9 +189,11 @@ CHECKS = {
     ),
     "C12": (
         "fault_enumeration",
-        "Success grid (33 input names x 3 positions x 6 force fields, strands "
-        "for nucleic force fields) must complete; failure side: 10 argument "
-        "classes, 9 input classes, and an injected fault at each of 26 "
+        "Success grid (33 input names x 3 positions x 6 force fields with a "
+        "near and an isolated water, strands for nucleic force fields, chains "
+        "ending in waters/ions, chain layouts, ring + linear chain, "
+        "multi-instance structures) must complete; failure side: 10 argument "
+        "classes, 11 input classes, and an injected fault at each of 26 "
         "pipeline call sites x call occurrence {first, second, last} x 4 "
         "exception types x output path {absent, pre-existing sentinel}; "
         "output-path state machine: a failing run leaves absent->absent / "
@@ -197,7 +209,9 @@ CHECKS = {
         "SG..SG distance lattice around 2.5 A x 8 layouts x input-HG patterns "
         "x CYS chain position x force fields x option sets; both partners "
         "bridged (no HG, bridged parameters, mutual pointers) below the "
-        "limit, both free above it, independent of order/chain/numbering.",
+        "limit, both free above it, independent of order/chain/numbering; "
+        "rigid placements (24 axis orientations x 8 shifts along the S-S "
+        "axis); two pairs in one structure.",
         "Distance is a continuum put on a lattice (hence 'exploration').",
         "complete lattice product exploration of the pipeline",
         "DESIGN.md §3 C13",
